@@ -1724,6 +1724,7 @@ impl UnifiedCommandExecutor {
             
             BitCommand::BitCount { key, start, end } => {
                 match self.storage.get_string(db, &key)? {
+                    Some(value) if value.is_empty() => Ok(RespFrame::Integer(0)),
                     Some(value) => {
                         let (start_byte, end_byte) = if let (Some(s), Some(e)) = (start, end) {
                             let len = value.len() as isize;
